@@ -107,6 +107,19 @@ def main():
         ends = {(str(p[0]), str(p[-1])) for p in lr.get_column_lineage()}
         if ("<default>.s.col", "<default>.u.col") not in ends:
             bad("a_column_written_under_one_spelling_is_found_again", written=cw, read=cr, got=sorted(ends))
+    # a quoted mixed-case LAST part of a dotted name keeps its case (and is a different table from the folded spelling)
+    for dialect, q in (("ansi", '"MyTab"'), ("mysql", "`MyTab`"), ("tsql", "[MyTab]"), ("bigquery", "`MyTab`")):
+        for prefix in ("s.", "db.s."):
+            evals += 1
+            lr = LineageRunner(f"insert into {prefix}{q} select a from {prefix}mytab", dialect=dialect)
+            got = ([str(t) for t in lr.source_tables], [str(t) for t in lr.target_tables])
+            if got != ([prefix + "mytab"], [prefix + "MyTab"]):
+                bad("quoted_identifiers_are_stripped_not_folded", dialect=dialect, written=prefix + q, got=got)
+    # equality and hashing agree for the same text in different letter case / quoting (list and set membership coincide)
+    for x, y in [(Table('"MyTab"'), Table("mytab")), (Table('s."MyTab"'), Table("s.mytab")), (Column('"Ab"'), Column("ab"))]:
+        evals += 1
+        if (x in [y]) != (x in {y}):
+            bad("equal_entities_hash_equally", x=x, y=y)
     if "--confirm-d13" in sys.argv:
         lr = LineageRunner('insert into t select "Ab" from s; insert into u select "Ab" from t')
         ends = {(str(p[0]), str(p[-1])) for p in lr.get_column_lineage()}
